@@ -466,4 +466,241 @@ theorem rdnss_tie (r : G_RecursiveDNSServer) (b : Bytes) :
   | panic => rfl
   | hang => rfl
 
+def gPrefix (p : Ndp.PrefixInfo) : G_PrefixInformation :=
+  { PrefixLength := UInt8.ofNat p.plen, OnLink := p.onLink, AutonomousAddressConfiguration := p.auto,
+    ValidLifetime := (p.valid : Int) * 1000000000, PreferredLifetime := (p.preferred : Int) * 1000000000, Prefix := p.pfx }
+
+def gDnssl (d : Ndp.Dnssl) : G_DNSSearchList := { Lifetime := (d.lifetime : Int) * 1000000000, DomainNames := d.names }
+
+def gOptions (o : Ndp.Options) : G_NewOptions :=
+  { MTU := UInt32.ofNat o.mtu, Prefixes := o.prefixes.map gPrefix, FirstPrefix := o.firstPrefix,
+    RDNSS := { Lifetime := (o.rdnss.lifetime : Int) * 1000000000, Servers := o.rdnss.servers },
+    SourceLLA := gLLA o.slla, TargetLLA := gLLA o.tlla, DNSSearchList := gDnssl o.dnssl, RouteInformation := gRI o.ri }
+
+/-- the two callees the translator could not translate, instantiated with the model's functions -/
+def extPrefix : G_PrefixInformation → Bytes → Outcome G_PrefixInformation := fun _ x => omap gPrefix (Ndp.prefixUnmarshal x)
+def extDnssl : G_DNSSearchList → Bytes → Outcome G_DNSSearchList := fun _ x => omap gDnssl (Ndp.dnsslUnmarshal x)
+
+theorem gOptions_zero : gOptions {} = G_NewOptions.zero := by
+  simp [gOptions, G_NewOptions.zero, gLLA, gRI, gDnssl, G_RecursiveDNSServer.zero, G_LinkLayerAddress.zero, G_DNSSearchList.zero,
+    G_RouteInformation.zero, Ndp.Options.firstPrefix]
+
+theorem sliceI_drop (b : Bytes) (i : Nat) (h : i ≤ b.length) : sliceI b (i : Int) (b.length : Int) = .ok (b.drop i) := by
+  rw [sliceI_from]; simp [sliceFrom, h]
+
+theorem idxI_drop0 (b : Bytes) (i : Nat) : idxI b (i : Int) = idx (b.drop i) 0 := by
+  simp [idxI, idx]
+
+theorem idxI_drop1 (b : Bytes) (i : Nat) : idxI b ((i : Int) + 1) = idx (b.drop i) 1 := by
+  have : (i : Int) + 1 = ((i + 1 : Nat) : Int) := by omega
+  rw [this, idxI_natCast]; simp [idx]
+
+theorem sliceI_drop_take (b : Bytes) (i l : Nat) (hi : i ≤ b.length) :
+    sliceI b (i : Int) ((i : Int) + (l : Int)) = slice (b.drop i) 0 l := by
+  have : (i : Int) + (l : Int) = ((i + l : Nat) : Int) := by omega
+  rw [this, sliceI_nat]
+  unfold slice
+  by_cases h : i + l ≤ b.length
+  · have h1 : i ≤ i + l ∧ i + l ≤ b.length := ⟨by omega, h⟩
+    have h2 : 0 ≤ l ∧ l ≤ (b.drop i).length := ⟨by omega, by simp; omega⟩
+    simp only [h1, h2, and_self, if_true, Outcome.ok.injEq, List.drop_zero]
+    rw [List.take_drop]
+  · have h1 : ¬ (i ≤ i + l ∧ i + l ≤ b.length) := fun x => h x.2
+    have h2 : ¬ (l ≤ b.length - i) := by omega
+    simp [h, h2]
+
+theorem mtu_tie' (m : UInt32) (b : Bytes) : genMTU_unmarshal m b = omap UInt32.ofNat (Ndp.mtuUnmarshal b) := by
+  rw [← mtu_tie m b]
+  cases genMTU_unmarshal m b <;> simp
+
+theorem first_prefix_step (o : Ndp.Options) (p : Ndp.PrefixInfo) :
+    (if List.length (gOptions o).FirstPrefix = 0 ∧ (((gOptions o).Prefixes ++ [gPrefix p]).length : Int) > 0 then do
+        let t15 ← listIdxI ((gOptions o).Prefixes ++ [gPrefix p]) 0
+        Outcome.ok ({ gOptions o with Prefixes := (gOptions o).Prefixes ++ [gPrefix p], FirstPrefix := t15.Prefix } : G_NewOptions)
+      else
+        Outcome.ok { gOptions o with Prefixes := (gOptions o).Prefixes ++ [gPrefix p] })
+    = .ok (gOptions { o with prefixes := o.prefixes ++ [p] }) := by
+  cases hp : o.prefixes with
+  | nil =>
+    simp [gOptions, hp, Ndp.Options.firstPrefix, listIdxI, gPrefix]
+  | cons q qs =>
+    by_cases hq : q.pfx.length = 0
+    · simp [gOptions, hp, Ndp.Options.firstPrefix, listIdxI, gPrefix, hq]
+    · simp [gOptions, hp, Ndp.Options.firstPrefix, hq]
+
+theorem walk_loop (b : Bytes) : ∀ (k i fg fm : Nat) (o : Ndp.Options), b.length - i ≤ k → i ≤ b.length →
+    b.length - i < fg → (b.length - i) / 8 < fm →
+    gennewParseOptions_loop1 extPrefix extDnssl b fg (gOptions o) (i : Int) = omap gOptions (Ndp.parseLoop fm (b.drop i) o) := by
+  intro k
+  induction k with
+  | zero =>
+    intro i fg fm o hk hi hfg hfm
+    obtain ⟨f, rfl⟩ : ∃ f, fg = f + 1 := ⟨fg - 1, by omega⟩
+    obtain ⟨m, rfl⟩ : ∃ m, fm = m + 1 := ⟨fm - 1, by omega⟩
+    unfold gennewParseOptions_loop1 Ndp.parseLoop
+    have hl : (b.drop i).length = 0 := by simp; omega
+    simp [sliceI_drop b i hi, hl]
+    omega
+  | succ k ih =>
+    intro i fg fm o hk hi hfg hfm
+    obtain ⟨f, rfl⟩ : ∃ f, fg = f + 1 := ⟨fg - 1, by omega⟩
+    obtain ⟨m, rfl⟩ : ∃ m, fm = m + 1 := ⟨fm - 1, by omega⟩
+    unfold gennewParseOptions_loop1 Ndp.parseLoop
+    simp only [sliceI_drop b i hi, Outcome.bind_ok, idxI_drop0, idxI_drop1]
+    generalize hr : b.drop i = rest
+    have hrl : rest.length = b.length - i := by rw [← hr]; simp
+    by_cases h0 : rest.length = 0
+    · simp [h0]
+    · have h0' : ¬ (rest.length : Int) = 0 := by omega
+      simp only [h0, h0', ne_eq, not_false_eq_true, if_true, if_false]
+      by_cases h2 : rest.length < 2
+      · have : (rest.length : Int) < 2 := by omega
+        simp [h2, this]
+      · have h2' : ¬ (rest.length : Int) < 2 := by omega
+        obtain ⟨t, ht⟩ := idx_some rest 0 (by omega)
+        obtain ⟨lb, hlb⟩ := idx_some rest 1 (by omega)
+        simp only [h2, h2', if_false, ht, hlb, Outcome.bind_ok]
+        have hcast : (lb.toNat : Int) * 8 = ((lb.toNat * 8 : Nat) : Int) := by omega
+        by_cases hbad : lb.toNat * 8 = 0 ∨ lb.toNat * 8 > rest.length
+        · by_cases hz : (lb.toNat : Int) * 8 = 0
+          · simp [hz, hbad]
+          · have hgt : (rest.length : Int) < (lb.toNat : Int) * 8 := by omega
+            simp [hz, hgt, hbad]
+        · have hz : ¬ (lb.toNat : Int) * 8 = 0 := by omega
+          have hgt : ¬ (lb.toNat : Int) * 8 > (rest.length : Int) := by omega
+          have hsl : sliceI b (i : Int) ((i : Int) + (lb.toNat : Int) * 8) = .ok (rest.take (lb.toNat * 8)) := by
+            rw [hcast, sliceI_drop_take b i _ hi, hr]; simp [slice]; omega
+          have hopt : slice rest 0 (lb.toNat * 8) = .ok (rest.take (lb.toNat * 8)) := by simp [slice]; omega
+          have hrest : sliceFrom rest (lb.toNat * 8) = .ok (rest.drop (lb.toNat * 8)) := by simp [sliceFrom]; omega
+          have hK : ∀ o', gennewParseOptions_loop1 extPrefix extDnssl b f (gOptions o') ((i : Int) + (lb.toNat : Int) * 8)
+              = omap gOptions (Ndp.parseLoop m (rest.drop (lb.toNat * 8)) o') := by
+            intro o'
+            have := ih (i + lb.toNat * 8) f m o' (by omega) (by omega) (by omega) (by omega)
+            have e : ((i + lb.toNat * 8 : Nat) : Int) = (i : Int) + (lb.toNat : Int) * 8 := by omega
+            rw [e, ← List.drop_drop, hr] at this
+            exact this
+          simp only [hz, hgt, decide_false, Outcome.bind_ok, Outcome.pure_eq, hbad, if_false, hsl, hopt, hrest, Bool.false_eq_true]
+          generalize rest.take (lb.toNat * 8) = opt
+          generalize rest.drop (lb.toNat * 8) = rest' at hK
+          by_cases t1 : t = 1
+          · simp only [if_pos t1, Ndp.applyOption, lla_tie]
+            cases Ndp.llaUnmarshal opt with
+            | ok a => exact hK { o with slla := a }
+            | err e => rfl
+            | panic => rfl
+            | hang => rfl
+          by_cases t2 : t = 2
+          · simp only [if_neg t1, if_pos t2, Ndp.applyOption, lla_tie]
+            cases Ndp.llaUnmarshal opt with
+            | ok a => exact hK { o with tlla := a }
+            | err e => rfl
+            | panic => rfl
+            | hang => rfl
+          by_cases t5 : t = 5
+          · simp only [if_neg t1, if_neg t2, if_pos t5, Ndp.applyOption, mtu_tie']
+            cases Ndp.mtuUnmarshal opt with
+            | ok v => exact hK { o with mtu := v }
+            | err e => exact hK o
+            | panic => rfl
+            | hang => rfl
+          by_cases t3 : t = 3
+          · simp only [if_neg t1, if_neg t2, if_neg t5, if_pos t3, Ndp.applyOption, extPrefix]
+            cases Ndp.prefixUnmarshal opt with
+            | ok p =>
+              simp only [omap_ok, Outcome.bind_ok, first_prefix_step, Outcome.pure_eq]
+              exact hK _
+            | err e => rfl
+            | panic => rfl
+            | hang => rfl
+          by_cases t24 : t = 24
+          · simp only [if_neg t1, if_neg t2, if_neg t5, if_neg t3, if_pos t24, Ndp.applyOption, ri_tie]
+            cases Ndp.riUnmarshal opt with
+            | ok r => exact hK { o with ri := r }
+            | err e => exact hK o
+            | panic => rfl
+            | hang => rfl
+          by_cases t25 : t = 25
+          · simp only [if_neg t1, if_neg t2, if_neg t5, if_neg t3, if_neg t24, if_pos t25, Ndp.applyOption, rdnss_tie]
+            cases Ndp.rdnssUnmarshal opt with
+            | ok r => exact hK { o with rdnss := { lifetime := r.lifetime, servers := o.rdnss.servers ++ r.servers } }
+            | err e => exact hK o
+            | panic => rfl
+            | hang => rfl
+          by_cases t31 : t = 31
+          · simp only [if_neg t1, if_neg t2, if_neg t5, if_neg t3, if_neg t24, if_neg t25, if_pos t31, Ndp.applyOption, extDnssl]
+            cases Ndp.dnsslUnmarshal opt with
+            | ok d => exact hK { o with dnssl := d }
+            | err e => exact hK o
+            | panic => rfl
+            | hang => rfl
+          simp only [if_neg t1, if_neg t2, if_neg t5, if_neg t3, if_neg t24, if_neg t25, if_neg t31, Ndp.applyOption]
+          exact hK o
+
+/-- **`newParseOptions` tie.**  For every byte string the function regenerated from the body of `newParseOptions` —
+    the option walk `for i := 0; len(b[i:]) != 0;` with the translator's measure `len(b) − i + 1`, the `switch` on the
+    option type and the regenerated `unmarshal`s of the link-layer address, MTU, route information and RDNSS options;
+    the prefix-information and DNSSL `unmarshal`s (standard-library / third-party calls inside) instantiated with the
+    model's functions — returns exactly the model's options (as Go values: `gOptions`), the model's error, the model's
+    panic, and never exhausts its fuel. -/
+theorem newParseOptions_tie (b : Bytes) :
+    gennewParseOptions extPrefix extDnssl b = omap gOptions (Ndp.newParseOptions b) := by
+  unfold gennewParseOptions Ndp.newParseOptions
+  have := walk_loop b b.length 0 (b.length + 1) (b.length / 8 + 1) {} (by omega) (by omega) (by omega) (by omega)
+  rw [gOptions_zero] at this
+  have e : (((b.length : Int) - 0).toNat + 1) = b.length + 1 := by omega
+  simp only [e]
+  simp only [List.drop_zero, Int.natCast_zero] at this
+  rw [this]
+
+/-- non-vacuity: a source link-layer address option followed by an MTU option -/
+example : omap (fun o => (o.MTU, o.SourceLLA.MAC))
+      (gennewParseOptions extPrefix extDnssl [1, 1, 2, 3, 4, 5, 6, 7, 5, 1, 0, 0, 0, 0, 5, 220])
+    = .ok (1500, [2, 3, 4, 5, 6, 7]) := by decide
+/-- a zero-length option is rejected, a truncated one too -/
+example : omap (fun o => o.MTU) (gennewParseOptions extPrefix extDnssl [1, 0, 2, 3, 4, 5, 6, 7]) = .err .other := by decide
+example : omap (fun o => o.MTU) (gennewParseOptions extPrefix extDnssl [1, 2, 2, 3, 4, 5, 6, 7]) = .err .other := by decide
+
+/-! ### what the translator covered -/
+
+/-- the translated functions (candidates and callees translated on demand) are exactly the ones tied above, plus
+    `DHCP4.AppendOptions`-free: nothing else was translated without a theorem -/
+theorem translated_accounted : optsTranslated.map (·.1) =
+    ["packet.(DHCP4).Options", "packet.(DHCP4).validateOptions", "packet.(DHCP4).ParseOptions", "packet.CopyMAC",
+     "packet.(*LinkLayerAddress).unmarshal", "packet.(*MTU).unmarshal", "packet.checkPreference", "packet.CopyBytes",
+     "packet.(*RouteInformation).unmarshal", "packet.CopyIP", "packet.(*RecursiveDNSServer).unmarshal",
+     "packet.newParseOptions"] := by decide
+
+/-- the candidates the translator refused (reasons in `Gen.LoopsOpts.optsUntranslated`, reviewed in design_notes/bF.md):
+    the map-iteration loop of `AppendOptions`, and the three `unmarshal`s that call the standard library / puny -/
+theorem untranslated_accounted : optsUntranslated.map (·.1) =
+    ["packet.(DHCP4).AppendOptions", "packet.(*PrefixInformation).unmarshal", "packet.(*DNSSearchList).unmarshal",
+     "packet.(*RawOption).unmarshal"] := by decide
+
+/-- the untranslated callees that `newParseOptions` takes as parameters are the two instantiated with the model's
+    functions in `newParseOptions_tie` -/
+theorem externals_accounted : optsExternals.map (fun e => (e.1, e.2.1, e.2.2.1)) =
+    [("gennewParseOptions", "ext_PrefixInformation_unmarshal", "packet.(*PrefixInformation).unmarshal"),
+     ("gennewParseOptions", "ext_DNSSearchList_unmarshal", "packet.(*DNSSearchList).unmarshal")] := by decide
+
+/-- the assumptions of the translation (texts in `Gen.LoopsOpts.optsAssumptions`) -/
+theorem assumptions_accounted : optsAssumptions.map (·.1) =
+    ["capEqLen", "errDropsResults", "externErrNoMutation", "intNoOverflow", "logCallsNoEffect", "mapNonNil",
+     "nilIsEmpty", "noAlias", "recvNonNil"] := by decide
+
+/-- the only `== nil` on a byte slice rendered as a length test: `options.FirstPrefix` is assigned only from
+    `net.IP.Mask` results (nil or 16 bytes), never empty-but-non-nil -/
+theorem nil_sites_accounted : optsNilSites = ["packet.newParseOptions: options.FirstPrefix == nil"] := by decide
+
+/-- every Go error value the translated functions return, and the `Err` constructor it was rendered as (the harness
+    compares sentinels with `errors.Is`; everything else is `other`) -/
+theorem errs_accounted : optsErrs =
+    [("errors.New(…)", Err.other), ("fmt.Errorf(…)", Err.other), ("io.ErrUnexpectedEOF", Err.other),
+     ("packet.ErrParseFrame", Err.parseFrame), ("packet.errRDNSSBadServer", Err.other),
+     ("packet.errRDNSSNoServers", Err.other)] := by decide
+
+/-- the measures the translator chose for the six loops (validated by the tie theorems: too little fuel would be `.hang`) -/
+theorem fuels_accounted : optsFuels.map (·.1) =
+    ["genDHCP4_validateOptions_loop1", "genDHCP4_ParseOptions_loop1", "genRecursiveDNSServer_unmarshal_loop1",
+     "gennewParseOptions_loop1"] := by decide
+
 end PV.Props.C08OptTie
